@@ -1,6 +1,7 @@
 import PicoVerif.Model.Sections
 import PicoVerif.Model.P8Png
 import PicoVerif.Spec.Formats
+import PicoVerif.Lemmas.C16
 /-! C16 — on-disk encodings match the PICO-8 formats (`Spec.Formats`), not merely each other. -/
 namespace Pico.C16
 open Pico.Sections Pico.P8Png Pico.P8File
@@ -9,48 +10,48 @@ open Pico.Sections Pico.P8Png Pico.P8File
 theorem widths_ok : Gen.hexLineLenGfx = 64 ∧ Gen.hexLineLenGff = 128 ∧ Gen.hexLineLenMap = 128 := by decide
 
 /-- **C16.gfx_lines**: the gfx/label text is 128 rows of 128 pixel digits in screen order. -/
-theorem gfx_lines (m : Bytes) (h : m.length = 0x2000) : gfxToLines m = Spec.gfxRows m := by
-  sorry
+theorem gfx_lines (m : Bytes) (h : m.length = 0x2000) : gfxToLines m = Spec.gfxRows m :=
+  C16L.gfx_lines m h
 
 /-- **C16.gfx_read**: reading that text gives the memory bytes back. -/
-theorem gfx_read (m : Bytes) (h : m.length = 0x2000) : gfxFromLines (Spec.gfxRows m) = .ok m := by
-  sorry
+theorem gfx_read (m : Bytes) (h : m.length = 0x2000) : gfxFromLines (Spec.gfxRows m) = .ok m :=
+  C16L.gfx_read m h
 
 /-- **C16.hex_rows**: gff (2 rows) and map (32 rows) are plain hex rows of 128 bytes. -/
 theorem hex_rows (m : Bytes) (rows : Nat) (h : m.length = 128 * rows) :
-    hexToLines 128 m = Spec.hexRows 128 rows m := by
-  sorry
+    hexToLines 128 m = Spec.hexRows 128 rows m :=
+  C16L.hex_rows 128 (by omega) m rows h
 
 theorem hex_read (m : Bytes) (rows : Nat) (h : m.length = 128 * rows) :
-    hexFromLines (Spec.hexRows 128 rows m) = .ok m := by
-  sorry
+    hexFromLines (Spec.hexRows 128 rows m) = .ok m :=
+  C16L.hex_read 128 (by omega) m rows h
 
 /-- **C16.sfx_note**: the five digits of a note are the documented bit fields of its 16-bit word
 (all 65,536 words, by kernel evaluation). -/
-theorem sfx_note (lsb msb : UInt8) : noteText lsb msb = Spec.noteText (lsb.toNat + 256 * msb.toNat) := by
-  sorry
+theorem sfx_note (lsb msb : UInt8) : noteText lsb msb = Spec.noteText (lsb.toNat + 256 * msb.toNat) :=
+  C16L.sfx_note lsb msb
 
 /-- **C16.sfx_lines** -/
-theorem sfx_lines (m : Bytes) (h : m.length = 0x1100) : sfxToLines m = some (Spec.sfxRows m) := by
-  sorry
+theorem sfx_lines (m : Bytes) (h : m.length = 0x1100) : sfxToLines m = some (Spec.sfxRows m) :=
+  C16L.sfx_lines m h
 
 /-- **C16.sfx_read**: reading the documented text gives the memory bytes back. -/
-theorem sfx_read (m : Bytes) (h : m.length = 0x1100) : sfxFromLines (Spec.sfxRows m) = .ok m := by
-  sorry
+theorem sfx_read (m : Bytes) (h : m.length = 0x1100) : sfxFromLines (Spec.sfxRows m) = .ok m :=
+  C16L.sfx_read m h
 
 /-- **C16.music_lines** -/
-theorem music_lines (m : Bytes) (h : m.length % 4 = 0) : musicToLines m = some (Spec.musicRows m) := by
-  sorry
+theorem music_lines (m : Bytes) (h : m.length % 4 = 0) : musicToLines m = some (Spec.musicRows m) :=
+  C16L.music_lines m h
 
 /-- **C16.music_read**: reading gives the bytes back except the bit the format has no place for. -/
 theorem music_read (m : Bytes) (h : m.length % 4 = 0) :
-    musicFromLines (Spec.musicRows m) = .ok (musicNorm m) := by
-  sorry
+    musicFromLines (Spec.musicRows m) = .ok (musicNorm m) :=
+  C16L.music_read m h
 
 /-- **C16.png_channels**: the byte read from a pixel is A2 R2 G2 B2. -/
 theorem png_channels (r g b a : UInt8) :
-    (decPixel r g b a).toNat = Spec.pixelByte r.toNat g.toNat b.toNat a.toNat := by
-  sorry
+    (decPixel r g b a).toNat = Spec.pixelByte r.toNat g.toNat b.toNat a.toNat :=
+  C16L.png_channels r g b a
 
 /-- **C16.png_pixel_rt**: a written pixel reads back as the byte, and keeps the upper six bits of every channel. -/
 theorem png_pixel_rt (r g b a v : UInt8) :
@@ -58,8 +59,8 @@ theorem png_pixel_rt (r g b a v : UInt8) :
      | [r', g', b', a'] => decPixel r' g' b' a' = v ∧
          r' >>> (2 : UInt8) = r >>> (2 : UInt8) ∧ g' >>> (2 : UInt8) = g >>> (2 : UInt8) ∧
          b' >>> (2 : UInt8) = b >>> (2 : UInt8) ∧ a' >>> (2 : UInt8) = a >>> (2 : UInt8)
-     | _ => False) := by
-  sorry
+     | _ => False) :=
+  C16L.png_pixel_rt r g b a v
 
 /-- the regenerated slices and join order are the documented layout -/
 theorem png_layout_tables :
@@ -75,7 +76,7 @@ theorem png_layout (c : Cart) (cb : Bytes)
     let p := picodata c cb
     pySlice p 0 0x2000 = c.gfx ∧ pySlice p 0x2000 0x3000 = c.map ∧ pySlice p 0x3000 0x3100 = c.gff ∧
     pySlice p 0x3100 0x3200 = c.music ∧ pySlice p 0x3200 0x4300 = c.sfx ∧ pySlice p 0x4300 0x8000 = cb ∧
-    p.length = 0x8001 ∧ (p.getD 0x8000 0).toNat = c.version := by
-  sorry
+    p.length = 0x8001 ∧ (p.getD 0x8000 0).toNat = c.version :=
+  C16L.png_layout c cb hg hm hf hmu hs hc hv
 
 end Pico.C16
